@@ -45,7 +45,7 @@ ENV = {'NUTILS_VERIF': ''}   # generated code exactly as in production (value-ob
 
 NS_ALL = [2, 3, 5, 8]
 PLAN = {'quick': dict(nprog=96, chunk=4, ntopo=20, tchunk=1, nfault=48, fchunk=3, npseeds=5, nns=2),
-        'thorough': dict(nprog=1500, chunk=5, ntopo=120, tchunk=2, nfault=900, fchunk=10, npseeds=8, nns=4)}
+        'thorough': dict(nprog=800, chunk=5, ntopo=100, tchunk=2, nfault=600, fchunk=10, npseeds=6, nns=4)}
 FAULT_KINDS = ['raise', 'kill', 'kill_before', 'raise', 'kill', 'raise_parent']
 
 
@@ -63,8 +63,8 @@ def plan(tier, seed):
     def rank(u):
         if u['kind'] == 'topo' and any(TOPO_OP_OF(i) in ('locate_missing', 'locate') for i in range(u['start'], u['stop'])):
             return 0
-        return 1 if u['kind'] == 'fault' else 2
-    head = {0: [u for u in units if rank(u) == 0][:3], 1: [u for u in units if rank(u) == 1][:4], 2: [u for u in units if rank(u) == 2][:7]}
+        return dict(fault=1, ev=2, topo=3)[u['kind']]
+    head = {0: sorted((u for u in units if rank(u) == 0), key=lambda u: TOPO_OP_OF(u['start']) != 'locate_missing')[:3], 1: [u for u in units if rank(u) == 1][:4], 2: [u for u in units if rank(u) == 2][:7]}
     front = []
     for k in range(7):
         for r in (1, 0, 2):
@@ -89,8 +89,8 @@ def ns_for(tier, i, kind='ev'):
     if PLAN[tier]['nns'] >= 4:
         return list(NS_ALL) if kind == 'ev' or i % 3 == 0 else [2, 3, 5]
     # quick: two worker counts per program, rotating so that all of {2,3,5,8} are covered; topology calls
-    # contain up to 7 parallel loops each, so 8 workers (49 forks per call) is used for one case in four only
-    pairs = [(2, 5), (3, 8), (2, 3), (3, 5)] if kind == 'ev' else [(2, 3), (3, 5), (2, 5), (2, 8)]
+    # contain up to 7 parallel loops each (49 forks per call with 8 workers), so 8 is left to the evaluable programs
+    pairs = [(2, 5), (3, 8), (2, 3), (3, 5)] if kind == 'ev' else [(2, 3), (3, 5), (2, 5), (2, 3)]
     return list(pairs[i % 4])
 
 
@@ -142,15 +142,13 @@ def _spawn(job, timeout, tmpdir):
             except Exception:
                 pass
         return 'timeout', prog
-    finally:
-        # no stragglers: the child's own forks share its process group
-        try:
-            os.killpg(p.pid, signal.SIGKILL)
-        except (ProcessLookupError, PermissionError):
-            pass
     if p.returncode == 0 and os.path.exists(outfile):
         with open(outfile) as f:
             return 'ok', json.load(f)
+    try:  # abnormal exit: make sure none of the child's own forks (same process group) survive
+        os.killpg(p.pid, signal.SIGKILL)
+    except (ProcessLookupError, PermissionError):
+        pass
     return 'crash', f'rc={p.returncode}: ' + err.decode(errors='replace')[-1500:]
 
 
@@ -212,7 +210,7 @@ def run_units(units, ctx):
                     cases.append(spec)
                 job = dict(mode='batch', cases=cases, deadline=ctx.deadline, progress=os.path.join(tmpdir, 'progress.json'))
                 nruns = sum(len(s['ns']) * len(s['pseeds']) for s in cases)
-                status, out = _spawn(job, max(60, ctx.time_left() + 60), tmpdir)
+                status, out = _spawn(job, max(60, ctx.time_left() + 120), tmpdir)
                 res.count('planned_runs', nruns)
                 if status == 'ok':
                     parts.append(out)
@@ -228,7 +226,7 @@ def run_units(units, ctx):
                         res.count('faults_skipped_deadline')
                         continue
                     job = make_fault_job(ctx.seed, i)
-                    status, out = _spawn(job, 90, tmpdir)
+                    status, out = _spawn(job, min(180, max(45, ctx.time_left() + 100)), tmpdir)
                     classify_fault(job, status, out, res)
     finally:
         shutil.rmtree(tmpdir, ignore_errors=True)
@@ -244,7 +242,7 @@ def replay(case):
         if 'fault_job' in case:
             for k in range(5):
                 job = dict(case['fault_job'], pseed=case['fault_job']['pseed'] + k)
-                status, out = _spawn(job, 90, tmpdir)
+                status, out = _spawn(job, 180, tmpdir)
                 classify_fault(job, status, out, res)
             return res.violations
         pseeds = [case['pseed'] + k for k in range(20)]
@@ -261,7 +259,7 @@ def finalize(m, tier, seed):
     c = m.counters
     p = PLAN[tier]
     ev = {k[3:]: v for k, v in c.items() if k.startswith('ev/')}
-    planned = (p['nprog'] + p['ntopo']) * p['npseeds'] * p['nns']
+    planned = p['npseeds'] * (sum(len(ns_for(tier, i, 'ev')) for i in range(p['nprog'])) + sum(len(ns_for(tier, i, 'topo')) for i in range(p['ntopo'])))
     faults = {k[6:]: v for k, v in c.items() if k.startswith('fault/')}
     inter = len(m.sets.get('interleavings', ()))
     cov = dict(
@@ -292,6 +290,7 @@ def finalize(m, tier, seed):
                     ranges_checked=ev.get('ranges_checked', 0), iterations_checked=ev.get('iterations_checked', 0),
                     arrays_lockset_checked=ev.get('arrays_lockset_checked', 0), arrays_ownership_checked=ev.get('arrays_ownership_checked', 0),
                     ownership_writes_checked=ev.get('ownership_writes_checked', 0),
+                    nested_lock_acquires=ev.get('nested_acquire', 0), lock_order_edges=ev.get('lock_order_edges', 0),
                     barrier_waits=ev.get('barrier_waits', 0), barrier_complete=ev.get('barrier_complete', 0)),
         instrument_selfcheck=dict(array_modified_without_logged_write=ev.get('array_modified_without_logged_write', 0),
                                   lockset_log_mismatch=ev.get('lockset_log_mismatch', 0), release_without_acquire=ev.get('release_without_acquire', 0),
